@@ -325,6 +325,10 @@ def main():
     cfg = props.PROPS[pid]
     ensure_engine()
     if cfg.get("custom"):
+        # custom checks run under the tooling venv's python (z3 bindings)
+        if "z3" not in sys.modules and os.path.exists("/opt/veriftools/pyvenv/bin/python3") and os.environ.get("VERIF_IN_VT") != "1":
+            env = dict(os.environ, VERIF_IN_VT="1")
+            return subprocess.call(["/opt/veriftools/pyvenv/bin/python3", os.path.abspath(__file__)] + sys.argv[1:], env=env)
         return cfg["custom"](pid, tier, seed)
     scratch = tempfile.mkdtemp(prefix="verif-%s-" % pid)
     try:
